@@ -51,6 +51,14 @@ def make_cases(tier, rng):
     fwd_bad = json.loads(json.dumps(fwd))
     fwd_bad["fields"] = fwd_bad["fields"][:3]
     cases.append(("same_forward_ref_two_ns_one_undefined", fwd_bad, schemadoc.render(fwd_bad, rng, 0), "invalid:unknown_ref"))
+    # a reference that designates a fullname nobody defines, while a type of the same short name exists in the null namespace (or
+    # in another namespace): the reference does not fall back to it
+    kind0 = schemadoc.obj("enum", hasName=True, name=TT("Kind"), hasSymbols=True, symbols=[TT("S")])
+    for refname, what in (("Kind", "bare name inside namespace ns"), ("ns.Kind", "dotted name"), ("other.Kind", "another namespace")):
+        nofb = R("Top", [("k", kind0), ("inner", R("ns.In", [("x", {"d": "ref", "t": TT(refname)})]))])
+        cases.append((f"no_fallback_to_null_namespace ({what})", nofb, schemadoc.render(nofb, rng, 0), "invalid:unknown_ref"))
+    okref = R("Top", [("k", kind0), ("inner", R("ns.In", [("x", {"d": "ref", "t": TT(".Kind")})]))])
+    cases.append(("leading_dot_reaches_null_namespace", okref, schemadoc.render(okref, rng, 0), "valid"))
     return cases
 
 
